@@ -19,7 +19,8 @@ RULE = ("Oracle: a bit-serial Williams/Rocksoft register model (one shift + cond
         "check, catalogue parameters == published parameters. (b) random: Hypothesis parameter sets (crc_width 1..64 "
         "biased to 1..9, any polynomial incl. even ones and 0, any init/xor, all four reflection combinations, data "
         "width 1..72) x word sequences. (c) hardware: Processor simulated cycle by cycle on generated (start, valid, "
-        "data) sequences with idle gaps, back-to-back words, restarts mid-stream and start with/without valid; crc "
+        "data) sequences with idle gaps, back-to-back words, restarts mid-stream, start with/without valid and an occasional "
+        "domain reset (after which the register holds its initial value again); crc "
         "after every cycle == model of the words since the last start; (d) match: when data_width divides crc_width, "
         "message + its own CRC in transmission order (register bits highest-order first, packed into words according "
         "to reflect_input) => match_detected, and with every other trailer (all of them when crc_width<=8, 64 sampled "
@@ -260,7 +261,9 @@ def hw_cases(draw, ncyc):
             mode = draw(INT(0, 3))     # 0 random, 1 back-to-back, 2 idle, 3 random with frequent start
         valid = {0: draw(INT(0, 1)), 1: 1, 2: 0, 3: draw(INT(0, 1))}[mode]
         start = 1 if draw(INT(0, 9 if mode != 3 else 2)) == 0 else 0
-        cyc.append([start, valid, draw(st.one_of(st.sampled_from([0, hi]), INT(0, hi)))])
+        # (last element: the domain's reset is asserted over this edge - the register returns to its initial value,
+        # as every resettable register does, whatever start / valid say)
+        cyc.append([start, valid, draw(st.one_of(st.sampled_from([0, hi]), INT(0, hi))), 1 if draw(INT(0, 24)) == 0 else 0])
     return {"p": p, "dw": dw, "cycles": cyc, "elaborations": 2 if draw(INT(0, 3)) == 0 else 1}
 
 
@@ -284,7 +287,7 @@ def hw_body(ctx, case):
     sim, cd, proc = make_proc(p, dw, case.get("elaborations", 1))
     fail = []
     st_ = dict(restart_after_data=False, idle_gap=False, start_with_valid=False, start_without_valid=False,
-               back_to_back=False)
+               back_to_back=False, reset_after_data=False)
 
     async def tb(c):
         words = []
@@ -294,9 +297,23 @@ def hw_body(ctx, case):
         prev_valid = 0
         seen_valid_since_start = False
         gap_open = False
-        for i, (start, valid, data) in enumerate(cycles):
+        for i, cyc_ in enumerate(cycles):
+            start, valid, data = cyc_[:3]
+            rst = cyc_[3] if len(cyc_) > 3 else 0
             c.set(proc.start, start); c.set(proc.valid, valid); c.set(proc.data, data)
+            if rst: c.set(cd.rst, 1)
             c.set(cd.clk, 1); c.set(cd.clk, 0)
+            if rst:
+                c.set(cd.rst, 0)
+                if words: st_["reset_after_data"] = True
+                words = []
+                prev_valid = 0
+                gap_open = False
+                exp = williams(p, words, dw)
+                got = c.get(proc.crc)
+                if got != exp:
+                    fail.append(Mismatch("crc-after-reset", cycle=i, expected=exp, actual=got)); return
+                continue
             if start:
                 if words: st_["restart_after_data"] = True
                 st_["start_with_valid" if valid else "start_without_valid"] = True
@@ -409,7 +426,7 @@ def parts(tier):
 
 REQUIRED = ["cat:entry", "cat:check-repacked", "sw:refin0-refout0", "sw:refin0-refout1", "sw:refin1-refout0",
             "sw:refin1-refout1", "sw:dw>crc", "sw:dw<crc", "sw:even-poly", "sw:object-used-before", "hw:restart_after_data", "hw:idle_gap",
-            "hw:start_with_valid", "hw:start_without_valid", "hw:back_to_back", "hw:processor-elaborated-before", "match:positive", "match:negative",
+            "hw:start_with_valid", "hw:start_without_valid", "hw:back_to_back", "hw:processor-elaborated-before", "hw:reset_after_data", "match:positive", "match:negative",
             "match:refin!=refout", "match:multi-word-trailer", "match:all-trailers-exhaustive"]
 
 
